@@ -13,9 +13,10 @@ import SqlfluffVerif.Driver.Exit
 import SqlfluffVerif.Driver.Discovery
 import SqlfluffVerif.Driver.WritePath
 import SqlfluffVerif.Driver.Config
+import SqlfluffVerif.Driver.Serialise
 open SqlfluffVerif SqlfluffVerif.Proto SqlfluffVerif.Driver
 
-def handlers : List (List String → Option String) := [handlePos, handlePatch, handleDedupe, handleNoqa, handleSelect, handleMR, handleTreeSpec, handleLexer, handleLexSpec, handleSlices, handleExit, handleDiscovery, handleWritePath, handleConfig]
+def handlers : List (List String → Option String) := [handlePos, handlePatch, handleDedupe, handleNoqa, handleSelect, handleMR, handleTreeSpec, handleLexer, handleLexSpec, handleSlices, handleExit, handleDiscovery, handleWritePath, handleConfig, handleSerialise]
 
 def handle (toks : List String) : String :=
   match toks with
